@@ -106,6 +106,7 @@ impl Harness {
         self.cpu.er = [0; 8];
         self.cpu.exit_addr = 0;
         self.cpu.bus.io_port_in = [0; crate::bus::IO_PORT_SIZE];
+        self.cpu.bus.io_port_latch = [0; crate::bus::IO_PORT_SIZE];
         self.cpu.verif_clear_interrupts();
         self.cpu.verif_reset_timer8_0();
         while self.msg_rx.try_recv().is_ok() {}
